@@ -7,7 +7,7 @@ def hexDigit (n : Nat) : Char :=
   if n < 10 then Char.ofNat (48 + n) else Char.ofNat (87 + n)
 
 def hexByte (b : Nat) : String :=
-  String.mk [hexDigit (b / 16 % 16), hexDigit (b % 16)]
+  String.ofList [hexDigit (b / 16 % 16), hexDigit (b % 16)]
 
 /-- bytes as lower-case hex, "-" for the empty string -/
 def hexOfNats (bs : List Nat) : String :=
